@@ -2,6 +2,7 @@ import Driver.Util
 import Driver.Chunker
 import Driver.Hashes
 import Driver.Bg4
+import Driver.CrashFS
 import Driver.Shard
 import Driver.InterpSearch
 import Driver.Dedup
@@ -34,6 +35,7 @@ def dispatch (blob : Blob) (line : String) : String :=
     else if cmd.startsWith "dedup." then handleDedup blob cmd rest
     else if cmd.startsWith "search." then handleSearch blob cmd rest
     else if cmd.startsWith "bg4." then handleBg4 blob cmd rest
+    else if cmd.startsWith "crash." then handleCrash blob cmd rest
     else "bad-op"
 
 /-- usage: xetdriver <ops.txt> <blob.bin> <model.out> -/
